@@ -122,6 +122,17 @@ Theorem C20_handler_start_runs : forall cats es s c s' o, run cats init es = Som
   step cats s (HandlerStart c) = Some (s', o) -> st_hand s' c = Some (HRunning (st_subs s c)).
 Proof. exact handler_start_runs. Qed.
 
+(* Complement of C20_idempotent: a request whose handling FAILED (AddFault) is not subscribed, also after the
+   restart the failure causes, so the identical request sent again is registered like a new one (subscription set
+   extended, handler (re)started) — nothing may remember it as "already handled". *)
+Theorem C20_repeat_after_fault_is_served : forall cats s c n cat s1 o1 s2 o2,
+  step cats s (AddFault c n) = Some (s1, o1) -> step cats s1 Restart = Some (s2, o2) ->
+  cats c = Some cat -> supported cat (n_metric n) = true -> ~ In n (st_subs s c) ->
+  ~ In n (st_subs s2 c) /\
+  exists s3, step cats s2 (AddMetric c n) = Some (s3, []) /\ st_subs s3 c = st_subs s c ++ [n] /\
+             st_hand s3 c = Some HStarting.
+Proof. exact repeat_after_fault_is_served. Qed.
+
 (* The request channel of the production wiring (`_DataPipeline._data_sourcing_request_sender`): with the
    receiver capacity the code passes (`limit=` of the actor's `channel.new_receiver(...)`, translated as
    [data_sourcing_request_limit]; equal to the translated `_REQUEST_RECV_BUFFER_SIZE`; the "pipeline" stream
@@ -180,6 +191,7 @@ Print Assumptions C20_opening_call_frame.
 Print Assumptions C20_request_while_opening.
 Print Assumptions C20_handler_start_runs.
 Print Assumptions C20_checked_traces_are_runs.
+Print Assumptions C20_repeat_after_fault_is_served.
 Print Assumptions C20_request_limit_is_configured_size.
 Print Assumptions C20_request_burst_served.
 Print Assumptions C20_request_queue_bounded.
